@@ -20,7 +20,16 @@ Definition file_items (only_indexed : bool) (f : dfile) : list ditem :=
   flat_map (fun l => match l with
                      | Some x => if negb only_indexed || has_idx f (it_sec x) then [x] else []
                      | None => [] end) (d_lines f).
-Definition all_items (only_indexed : bool) (fs : list dfile) : list ditem := flat_map (file_items only_indexed) fs.
+Fixpoint items_from (only_indexed : bool) (prev : Z) (fs : list dfile) : list ditem :=
+  match fs with
+  | [] => []
+  | f :: tl =>
+      flat_map (fun l => match l with
+                         | Some x => if negb only_indexed || has_idx f (it_sec x) || (it_sec x =? prev) then [x] else []
+                         | None => [] end) (d_lines f)
+      ++ items_from only_indexed (fold_left (fun acc l => match l with Some x => it_sec x | None => acc end) (d_lines f) prev) tl
+  end.
+Definition all_items (only_indexed : bool) (fs : list dfile) : list ditem := items_from only_indexed (-1) fs.
 
 Fixpoint subseq (a b : list ditem) : bool :=     (* a is a subsequence of b *)
   match a, b with
@@ -47,20 +56,47 @@ Definition ok_by_time (crash : bool) (fs : list dfile) (bsec esec res : Z) (resu
     subseq expected found && subseq found (filter inrange (all_items false fs))
   else list_eqb found expected.
 
-(** search from a time with a line limit (asserted for begin seconds after the creation second) *)
+(** search from a time with a line limit (asserted for begin seconds after the creation second):
+    the result is a prefix, in write order, of the items from that time on, and it is not cut
+    short: it has at least [mx] items unless there are fewer *)
+Fixpoint is_prefix (a b : list ditem) : bool :=
+  match a, b with
+  | [], _ => true
+  | x :: a', y :: b' => ditem_eqb x y && is_prefix a' b'
+  | _ :: _, [] => false
+  end.
 Definition ok_max_lines (crash : bool) (fs : list dfile) (bsec mx : Z) (result : list ditem) : bool :=
   if bsec <? 1 then true else
   let cand := filter (fun x => bsec <=? it_sec x) (all_items true fs) in
-  let expected := take_seconds mx cand 0 (-1) in
+  let need := Z.min mx (Z.of_nat (length cand)) in
   if crash then
-    subseq expected result && subseq result (filter (fun x => bsec <=? it_sec x) (all_items false fs))
-  else list_eqb result expected.
+    subseq (firstn (Z.to_nat need) cand) result && subseq result (filter (fun x => bsec <=? it_sec x) (all_items false fs))
+  else is_prefix result cand && (need <=? Z.of_nat (length result)).
 
-(** the writer's side, without a crash: every second after the creation second has its index
-    entry in the file that holds its lines, every line parses, the index is whole *)
-Definition ok_dump (fs : list dfile) : bool :=
-  forallb (fun f => (d_idx_rest f =? 0) &&
-                    forallb (fun l => match l with Some x => (it_sec x <? 1) || has_idx f (it_sec x) | None => false end) (d_lines f)) fs.
+(** the writer's side, without a crash: every line parses, the index is whole, and every second
+    after the creation second has its index entry in the file that holds its first line (a
+    second may continue into the next file after a roll-over by size: [prev] = the last second of
+    the previous file) *)
+Definition last_sec_of (f : dfile) (prev : Z) : Z :=
+  fold_left (fun acc l => match l with Some x => it_sec x | None => acc end) (d_lines f) prev.
+Fixpoint ok_dump_from (prev : Z) (fs : list dfile) : bool :=
+  match fs with
+  | [] => true
+  | f :: tl =>
+      (d_idx_rest f =? 0) &&
+      forallb (fun l => match l with
+                        | Some x => (it_sec x <? 1) || has_idx f (it_sec x) || (it_sec x =? prev)
+                        | None => false end) (d_lines f) &&
+      ok_dump_from (last_sec_of f prev) tl
+  end.
+(** the first retained file may begin with the rest of a second whose beginning was in a file that
+    retention has removed *)
+Definition first_sec (fs : list dfile) : Z :=
+  match fs with
+  | f :: _ => match d_lines f with Some x :: _ => it_sec x | _ => -1 end
+  | [] => -1
+  end.
+Definition ok_dump (fs : list dfile) : bool := ok_dump_from (first_sec fs) fs.
 
 (** between two dumps no retained file shrinks (a file is only ever appended to or removed) and the
     number of files stays within the retention limit *)
